@@ -329,7 +329,8 @@ var c17Apply = hx.Define("c17.apply", func(c *c17Case, s *hx.Sub) *hx.Violation 
 	if got != want {
 		return hx.V("value:"+sigName, "%s with a=%v b=%v printed %q; exact result is %s", src, c.A, c.B, o.Out, last.val.FloatString(6))
 	}
-	if last.val.IsInt() && plain && strings.Contains(o.Out, ".") {
+	// "whole-number results print without a fractional part" - also not in the mantissa of an exponent form
+	if last.val.IsInt() && strings.Contains(o.Out, ".") {
 		return hx.V("fraction-on-whole:"+sigName, "%s with a=%v b=%v printed %q for a whole-number result", src, c.A, c.B, o.Out)
 	}
 	if last.mustInt && (strings.Contains(o.Out, ".") || !plain) {
